@@ -474,8 +474,12 @@ struct stack_harness : sim::Harness
                 std::int64_t interval = rng.chance( 60 ) ? rng.range( 0, 40 ) : rng.range( 0, 399 );
                 std::int64_t latency = rng.chance( 50 ) ? 0 : rng.range( 0, 7 );
                 if ( property == "C23" && rng.chance( 70 ) ) latency = rng.range( 1, 7 );
+                // long sleeps: up to the 499 events the specification permits (short intervals: the supervision timeout limits the product)
+                std::int64_t sca_and_drift = rng.range( 0, 39 );
+                // (a central that grants a long latency has an accurate clock: with 500 ppm on both sides the widening reaches half the interval after 499 events)
+                if ( rng.chance( 12 ) ) { latency = rng.chance( 50 ) ? rng.range( 8, 499 ) : rng.range( 450, 499 ); if ( rng.chance( 70 ) ) interval = rng.range( 0, 6 ); if ( rng.chance( 85 ) ) sca_and_drift = rng.range( 5, 7 ) + 8 * rng.range( 0, 4 ); }
                 p.ops.push_back( sim::Op( stack::op_connect, { kind, device_id(), interval, latency, rng.range( 0, 599 ), rng.range( 0, 7 ), rng.range( 0, 7 ), rng.range( 0, 11 ), rng.chance( 50 ) ? 0 : rng.range( 1, 100000 ),
-                                                               rng.range( 0, 39 ), rng.range( 0, 999 ), rng.range( 0, 3 ) } ) );
+                                                               sca_and_drift, rng.range( 0, 999 ), rng.range( 0, 3 ) } ) );
                 connect_planned = true;
             }
             else if ( x < 58 ) p.ops.push_back( sim::Op( stack::op_air_fault, { rng.range( 0, 3 ), rng.chance( 75 ) ? rng.range( 1, 3 ) : rng.range( 4, 40 ) } ) );
@@ -498,7 +502,7 @@ struct stack_harness : sim::Harness
                 static const std::int64_t deltas[] = { 6, 7, 8, 10, 16, 40, 0, 1, 2, 3, 5, -1, -5, 32767, 32768, 40000, 65535 };
                 std::int64_t delta = rng.chance( 70 ) ? rng.range( 6, 30 ) : deltas[ rng.below( sizeof deltas / sizeof deltas[ 0 ] ) ];
                 if ( delta < 0 ) delta = 0;
-                p.ops.push_back( sim::Op( stack::op_central_update, { rng.range( 0, 2 ), delta, rng.range( 0, 100000 ), rng.range( 0, 5 ), rng.range( 0, 199 ), rng.range( 0, 4 ), rng.range( 0, 99 ) } ) );
+                p.ops.push_back( sim::Op( stack::op_central_update, { rng.range( 0, 2 ), delta, rng.range( 0, 100000 ), rng.range( 0, 5 ), rng.range( 0, 199 ), rng.chance( 90 ) ? rng.range( 0, 4 ) : rng.range( 5, 499 ), rng.range( 0, 99 ) } ) );
             }
             else if ( x < 84 )
             {
@@ -526,6 +530,13 @@ struct stack_harness : sim::Harness
             }
             else if ( x < 99 ) p.ops.push_back( sim::Op( stack::op_central_terminate, {} ) );
             else p.ops.push_back( sim::Op( stack::op_run, { rng.range( 100, 400 ) } ) );
+            // a procedure of the peripheral that the central leaves unanswered, and a long wait (40 s are thousands of connection events)
+            if ( property == "C27" && !adv_focus && rng.chance( 3 ) )
+            {
+                p.ops.push_back( sim::Op( stack::op_app, { rng.chance( 50 ) ? 5 : 3, rng.range( 0, 11 ), rng.range( 0, 9 ), 0 } ) );
+                if ( rng.chance( 60 ) ) { p.ops.push_back( sim::Op( stack::op_run, { rng.range( 1, 40 ) } ) ); p.ops.push_back( sim::Op( stack::op_central_update, { rng.range( 1, 2 ), rng.range( 6, 30 ), rng.range( 0, 100000 ), 0, 0, 0, 0 } ) ); }
+                for ( int k = 0; k != 16; ++k ) p.ops.push_back( sim::Op( stack::op_run, { 400 } ) );
+            }
         }
         if ( !adv_focus && !connect_planned )
             p.ops.insert( p.ops.begin() + 1, sim::Op( stack::op_connect, { 0, 0, rng.range( 0, 30 ), rng.range( 0, 3 ), rng.range( 0, 599 ), 1, 0, rng.range( 0, 11 ), 0, rng.range( 0, 39 ), rng.range( 0, 999 ), rng.range( 0, 3 ) } ) );
